@@ -133,3 +133,10 @@ impl<'a> Cursor<'a> {
         self.char_offset
     }
 }
+
+#[cfg(kani)]
+pub(crate) mod verif {
+    #[allow(clippy::wildcard_imports)]
+    use super::*;
+    include!(concat!(env!("SAS_LEXER_VERIF_DIR"), "/harness/cursor.rs"));
+}
